@@ -226,3 +226,35 @@ var (
 	UnmarshalLeaves = []string{"RecUJ", "RecUT", "IntUT", "RoundMJ"}
 	EmbLeaves       = []string{"EmbA", "EmbB", "EmbC"}
 )
+
+// --- hostile marshalers (C03): return configured bytes / errors
+type HostMJ struct{ Out string }
+
+func (h HostMJ) MarshalJSON() ([]byte, error) {
+	if h.Out == "!err" {
+		return nil, fmt.Errorf("HostMJ refuses")
+	}
+	return []byte(h.Out), nil
+}
+
+type HostMT struct{ Out string }
+
+func (h HostMT) MarshalText() ([]byte, error) {
+	if h.Out == "!err" {
+		return nil, fmt.Errorf("HostMT refuses")
+	}
+	return []byte(h.Out), nil
+}
+
+func init() {
+	Leaves["HostMJ"] = reflect.TypeOf(HostMJ{})
+	Leaves["HostMT"] = reflect.TypeOf(HostMT{})
+}
+
+// Marshaler outputs by class.
+var (
+	HostValid   = []string{`1`, `"x"`, `null`, `true`, `{"a":[1,2,{"b":null}]}`, ` { "a" : 1 , "b" : [ ] } `, "[1,\n\t2]", `"a<b>&c"`, `"é "`, `-0.5e+3`, `[]`, `{}`, `"𝄞"`, "\"é\"", `[[[[]]]]`, `{"":""}`}
+	HostLenient = []string{`01`, `1.`, `-.5`, `[1,02]`, "\"a\x01b\"", "\"tab\tin\"", `"\x"`, `"\u12"`, `"\uZZZZ"`, `{"a":"\q"}`, "[\"\n\"]", `+1`, `.5`, `1e`, `--1`}
+	HostBadUTF8 = []string{"\"\xff\"", "\"\xc3\"", "[\"a\xe2\x82\"]", "{\"k\xed\xa0\x80\":1}"}
+	HostBroken  = []string{``, ` `, `{`, `[1,`, `[1 2]`, `{"a"}`, `{"a":}`, `1 2`, `nul`, `tru`, `[1]]`, `{"a":1,}`, `[,]`, `"unterminated`, `{a:1}`, `'x'`, `}`, "\x00", `[1]x`, `{"a":1}}`, `"\ud800"x`, `NaN`, `Infinity`}
+)
